@@ -58,6 +58,7 @@ static void pend(const char* cls, const char* fmt, const void* p, size_t n = 0) 
   snprintf(b, sizeof b, fmt, p, n);
   if (g_pending.size() < 8) g_pending.push_back({cls, b});
 }
+void deactivate() { g_active = false; }
 void set_op(int opidx, int opkind) {
   g_op = opidx;
   g_opkind = opkind;
